@@ -5,7 +5,8 @@ import bytes_stream
 from props import common_prog
 
 THEOREM_MODULES = ["Hcl.Theorems.C13"]
-THEOREMS = {"Hcl.Theorems.C13": ["C13_lexer_terminates", "C13_lexer_progress", "C13_render_total", "C13_render_total_y86",
+THEOREMS = {"Hcl.Theorems.C13": ["C13_construction_no_internal_error", "C13_accepted_runs", "Program_new_np", "resolveConstants_np",
+                                 "assignmentsToActions_np", "check_np", "GBuild.sort_ne_panic", "C13_lexer_terminates", "C13_lexer_progress", "C13_render_total", "C13_render_total_y86",
                                  "C13_lookup_total", "C13_preamble_utf8"]}
 
 RULE = ("S-TEXT (in-process, real preamble, parse_y86_hcl + Error::format_for_contents under catch_unwind): token soup with "
